@@ -52,6 +52,23 @@ def focus_for(prop):
                 sc['cancel'] = {'kind': 'future', 'transfer': rng.randrange(len(sc['transfers'])),
                                 'after_steps': rng.choice([5, 10, 20, 30, 40, 60, 80, 120])}
 
+    def slots(sc, rng):
+        # downloads to streams through a one-slot window, then one more transfer on the same manager
+        if rng.random() < 0.5:
+            return reentrant(sc, rng)
+        for t in sc['transfers']:
+            t['kind'] = 'download'
+            t['dest'] = 'nonseekable'
+            t.pop('source', None)
+            t['size'] = rng.choice([1, 3, 5, 8])
+        sc['cfg']['max_in_memory_download_chunks'] = 1
+        sc['cfg']['multipart_threshold'] = rng.choice([4, 50])
+        sc['faults'] = []
+        sc['cancel'] = None
+        sc.pop('early_shutdown', None)
+        sc['fresh_after'] = True
+        sc['fresh_nonseekable'] = True
+
     def reentrant(sc, rng):
         for t in sc['transfers']:
             if rng.random() < 0.6:
@@ -150,15 +167,34 @@ def focus_for(prop):
         if rng.random() < 0.4:
             sc['mode'] = 'stall'
             sc['stall'] = {'class': 'cb', 'nth': rng.choice([0, 0, 1, 2]), 'len': rng.choice([15, 40, 100])}
+        if rng.random() < 0.35:
+            # bandwidth-limited downloads whose bodies hand out short reads and break once (retried)
+            for t in sc['transfers']:
+                t['kind'] = 'download'
+                t['dest'] = rng.choice(['path', 'seekable', 'nonseekable'])
+                t.pop('source', None)
+                t['size'] = rng.choice([5, 8, 11, 13, 17])
+                if t['dest'] == 'path':
+                    t.setdefault('previous', None)
+            sc['cfg']['max_bandwidth'] = 10 ** 9
+            sc['cfg']['io_chunksize'] = rng.choice([3, 8])
+            sc['cfg']['num_download_attempts'] = rng.choice([2, 3])
+            sc['cfg']['multipart_threshold'] = rng.choice([4, 6, 50])
+            sc['faults'] = [{'site': 'body', 'nth_get': rng.choice([0, 0, 1]), 'after': rng.randrange(1, 9), 'kind': 'retryable'}]
+            sc['cancel'] = None
 
     def barrier(sc, rng):
         # shutdown() without cancel entered while several transfers are in flight, some failing
+        if rng.random() < 0.5:
+            multipart(sc, rng)          # multipart uploads / copies with a fault among them
+            if len(sc['transfers']) < 2:
+                sc['transfers'].append(dict(sc['transfers'][0]))
         if sc['cancel'] is None or rng.random() < 0.5:
             sc['cancel'] = None
             sc['early_shutdown'] = rng.choice([0, 0, 1, 2, 5, 10, 25])
             sc['fresh_after'] = False
 
-    return {'C03': None, 'C04': reentrant, 'C05': multipart, 'C06': downloads, 'C07': cancels, 'C08': callbacks,
+    return {'C03': None, 'C04': slots, 'C05': multipart, 'C06': downloads, 'C07': cancels, 'C08': callbacks,
             'C09': progress, 'C10': streams, 'C11': streams, 'C12': None, 'C18': barrier, 'C01': multipart, 'C02': downloads}.get(prop)
 
 
